@@ -30,6 +30,9 @@ type BlockCache struct {
 	round         int64
 	hits          int64
 	miss          int64
+	// committed is set once the block's writes have been moved to the StateCache
+	// (where they are filed under blockHash) and the pre-commit cache was emptied
+	committed bool
 }
 
 type Block struct {
@@ -89,6 +92,11 @@ func (pcc *BlockCache) Get(key string) (Value, bool) {
 		return nil, false
 	}
 
+	if pcc.committed {
+		// the block's own writes are in the state cache now, under its own hash:
+		// starting at the previous block would answer with an ancestor's value
+		return pcc.main.Get(key, pcc.blockHash)
+	}
 	return pcc.main.Get(key, pcc.prevBlockHash)
 
 	// v, ok := pcc.main.Get(key, pcc.prevBlockHash)
